@@ -104,9 +104,15 @@ func (s *sortedSet[ElementType, WeightType]) addSorted(element ElementType) {
 	if listElement, created := s.elements.GetOrCreate(element, func() *sortedSetElement[ElementType, WeightType] {
 		return newSortedSetElement(element, s)
 	}); created {
+		// the first invocation of the callback is the initial update that is executed by OnUpdate itself (while we are
+		// holding the mutex) - invocations of the callback are never executed concurrently
+		initialUpdate := true
+
 		listElement.unsubscribeFromWeightUpdates = s.weightVariable(element).OnUpdate(func(_ WeightType, newWeight WeightType) {
 			// only lock if this is not the initial update
-			if listElement.unsubscribeFromWeightUpdates != nil {
+			if initialUpdate {
+				initialUpdate = false
+			} else {
 				s.mutex.Lock()
 				defer s.mutex.Unlock()
 			}
